@@ -321,7 +321,73 @@ func (t vsTarget) run(ctx context.Context, st *Store) error {
 	return errors.New("unknown target")
 }
 
+// vsCrashAtOpen crashes the very first opening of a store directory (which writes the file every empty
+// block is linked to) at a tape-chosen file-system effect, reopens, and requires empty blocks to work.
+func vsCrashAtOpen(s *verifsim.Sim, dir string) {
+	ctx := context.Background()
+	params := &Parameters{RecentBlocksCacheSize: s.Range(0, 2, "recent_cache")}
+	live := filepath.Join(dir, "live")
+	_ = os.Mkdir(live, 0o755)
+	ctl := &verifsim.FSControl{YieldEffects: true}
+	verifsim.InstallFS(ctl)
+	at := s.Range(0, 14, "open_crash_at")
+	s.Cfg["history"] = fmt.Sprintf("first NewStore crashed before effect #%d", at+1)
+	img := ""
+	task := s.Go("first-open", func() { _, _ = NewStore(params, live) })
+	for step := 0; step < 200; step++ {
+		ps := s.Settle()
+		if task.Done() {
+			break
+		}
+		if step == at {
+			resume := ctl.Pause()
+			img = filepath.Join(dir, "img-open")
+			if err := verifsim.CopyTree(live, img); err != nil {
+				panic(err)
+			}
+			resume()
+			s.Fault("crash-during-first-open")
+			s.Probe("crash-image")
+		}
+		alts := s.TaskAlts(ps, 1)
+		if len(alts) == 0 {
+			break
+		}
+		s.Pick("effect", alts)
+	}
+	ctl.YieldEffects = false
+	if img == "" {
+		img = live // the open completed before the chosen point: judge the completed state
+	}
+	resume := ctl.Pause()
+	defer resume()
+	st, err := NewStore(params, img)
+	if err != nil {
+		s.Violate("c07-reopen-failed", "NewStore", "NewStore on the image of a crashed first open failed: %v", err)
+		return
+	}
+	empty := verifsq.Empty()
+	const h = 11
+	if err := st.PutODSQ4(ctx, empty.Roots, h, empty.EDS); err != nil {
+		s.Violate("c07-reput-fails", "PutODSQ4(empty)", "storing an empty block after a crashed first open fails: %v", err)
+		return
+	}
+	acc, err := st.GetByHeight(ctx, h)
+	if err != nil {
+		s.Violate("c07-listed-but-unreadable", "empty block after a crashed first open", "the empty block of height %d is listed but cannot be opened: %v (first open crashed before effect #%d)", h, err, at+1)
+		return
+	}
+	defer acc.Close()
+	if bad := empty.CheckAccessor(ctx, acc, &verifsq.CheckOpts{Rng: mrand.New(mrand.NewPCG(1, 2)), SkipReader: false}); len(bad) > 0 {
+		s.Violate("c07-readable-but-wrong", "empty block after a crashed first open", "the empty block of height %d reads wrongly after a crashed first open (before effect #%d): %s", h, at+1, bad[0])
+	}
+}
+
 func vsCrashWorld(s *verifsim.Sim, dir string) {
+	if s.Chance(1, 8, "crash_at_first_open") {
+		vsCrashAtOpen(s, dir)
+		return
+	}
 	ctx := context.Background()
 	rng := mrand.New(mrand.NewPCG(uint64(s.Choose(1<<16, "data_seed")), 9))
 	recent := s.Range(0, 2, "recent_cache")
